@@ -2168,6 +2168,19 @@ def check_C18(tier, seed, replay=None):
     n = 120 if tier == "quick" else 400
     groups = F.random_groups(seed, n, F.RandCfg(depth=4, state=True, cloner=True, gstore=False, preds=True, errs=0.2), 1)
     groups += F.random_groups(seed + 1, n // 2, F.RandCfg(depth=4, preds=True, throw=True), len(groups) + 1)
+    # one expression evaluated on behalf of different rules (a recovery expression runs inside whichever rule threw; a rule body
+    # runs under every caller): anything keyed by "the current rule" must be per call
+    from peg import Gram
+    for variant in range(6):
+        g = Gram(len(groups) + 1)
+        rec = g.choice([g.lit([F.A]), g.lit([F.B]), g.lit([])]) if variant % 2 == 0 else g.un("star", g.choice([g.lit([F.A]), g.action(g.lit([F.B]))]))
+        t2 = g.seq([g.lit([F.A]), g.throw("la")])
+        t3 = g.seq([g.lit([F.B]), g.throw("la")]) if variant < 4 else g.seq([g.lit([F.B]), g.un("opt", g.ref(2))])
+        g.rules = [g.recover(g.choice([g.ref(2), g.ref(3)]), rec, ["la"]), t2, t3]
+        g.disp = [""] * 3
+        g.compute_args()
+        g.maydiverge = g.may_diverge()
+        groups.append(g)
     lrg = F.lr_groups(seed, n // 3, gi0=len(groups) + 1)
     groups += lrg
     inputs = F.all_inputs([F.A, F.B], 3) + F.all_inputs([F.NN, F.PLUS, F.STAR_], 3)
@@ -2225,7 +2238,11 @@ def check_C18(tier, seed, replay=None):
             plan = extra[:300] + plan + extra[300:]
         solo = v.run(inputs, options, plan, timeout_ms=20000)
         solo_err = getattr(v, "last_stderr", "")
+        # the same calls one after the other in the opposite order, in a fresh process: what a call returns (its statistics
+        # included) does not depend on which calls the process has served before
+        rev = v.run(inputs, options, plan[::-1], timeout_ms=20000, obs_name="obs_rev.ndjson")
         conc = v.run(inputs, options, plan, timeout_ms=20000, conc=G, rounds=rounds, obs_name="obs_conc.ndjson")
+        v.rev_obs = rev
         return solo, conc, solo_err, getattr(v, "last_stderr", ""), getattr(v, "conc_failure", None), len(plan)
     res = P.parallel(prep, variants, workers=4)
     run.variants, run.groups, run.inputs, run.options = variants, groups, inputs, options
@@ -2257,6 +2274,16 @@ def check_C18(tier, seed, replay=None):
             if a2 != b2:
                 fld = [k for k in a2 if a2[k] != b2.get(k)][0]
                 div.append(dict(k=a["k"], vi=v.vi, gi=a["gi"], ii=a["ii"], oi=a["oi"], df="concurrent-" + fld, at=0, haz=[]))
+        ro = [json.loads(l) for l in open(v.rev_obs)][::-1]
+        if len(ro) != len(so):
+            raise P.Inconclusive("observation counts differ (reverse order)")
+        for a, b in zip(so, ro):
+            ncmp += 1
+            a2 = {k: a[k] for k in a if k not in ("k",)}
+            b2 = {k: b[k] for k in b if k not in ("k",)}
+            if a2 != b2:
+                fld = [k for k in a2 if a2[k] != b2.get(k)][0]
+                div.append(dict(k=a["k"], vi=v.vi, gi=a["gi"], ii=a["ii"], oi=a["oi"], df="order-" + fld, at=0, haz=[]))
     mstates = r.get("distinct", 0)
     return std_finish(run, div, tot, "design: Pool.tla, %d parsers sharing the state pool, every interleaving of Get / per-key copy / per-key clear / Put / adopt / write (exhaustive, %d distinct states), invariants ExclusiveOwnership, GetIsEmpty, Isolation (+ the deviation switches DoublePut and NoClear each produce a counterexample); real code: stateful (Cloner), throw/recover and left-recursive packs built with -race, %d goroutines x %d rounds calling Parse concurrently with mixed inputs and options (Memoize, MaxExpressions, AllowInvalidUTF8); every concurrent call must return exactly its solo observation (which is validated against PegRef) and the race detector must stay silent" % (np_, mstates, G, rounds),
                       extra=dict(pool_model_states=mstates, pool_model_transitions=r.get("generated", 0), concurrent_calls_compared=ncmp, goroutines=G, rounds=rounds, race_reports=races))
